@@ -2315,7 +2315,7 @@ package goatlang
 //@   invariant#keys forall k int :: trig(k) ==> ((has(*m, k) || pair.key == k) <==> (old(has(*m, k)) || k == key))
 //@   uses keys: bound
 //@   uses view: bound
-//@   uses count: bound
+//@   uses count: bound COUNT
 //@   invariant#count count(*m) == old(count(*m))
 //@   invariant#view forall k int, x Value :: trig(k, x) ==> ((holds(*m, k, x) || (pair.key == k && pair.value == x)) <==> (old(holds(*m, k, x)) || (k == key && x == value)))
 //@   invariant#bound 1 <= pair.distance && pair.distance <= m.size
@@ -2358,19 +2358,21 @@ package goatlang
 //@   ensures#wf rh(*m) && m.total == count(*m) && m.total == old(m.total) && m.size == ite(size < 16, 16, size)
 //@   ensures#view forall k int, x Value :: trig(k, x) ==> (holds(*m, k, x) <==> old(holds(*m, k, x)))
 //@   ensures#keys forall k int :: trig(k) ==> (has(*m, k) <==> old(has(*m, k)))
-//@   uses view: view hdr oldkept rh
+//@   uses view: view weiv hdr oldkept rh
 //@   uses keys: keys hdr oldkept rh
 //@ func (*intMap).resize loop 0
 //@   invariant#rh rh(*m) && m.size == size && m != nil
 //@   invariant#hdr m.total == total && total == old(m.total) && pairs == old(m.pairs) && arr(m.pairs) != arr(pairs)
 //@   invariant#oldkept same(elemsAt(intMapPair, arr(pairs)), old(elemsAt(intMapPair, arr(m.pairs))))
 //@   invariant#count count(*m) == cnt(elemsAt(intMapPair, arr(pairs)), off(pairs), off(pairs) + rangeidx)
-//@   invariant#view forall k int, x Value :: trig(k, x) ==> (holds(*m, k, x) <==> holdsIn(pairs, rangeidx, k, x))
+//@   invariant#view forall k int, x Value :: trig(k, x) && holds(*m, k, x) ==> holdsIn(pairs, rangeidx, k, x)
+//@   invariant#weiv forall k int, x Value :: trig(k, x) && holdsIn(pairs, rangeidx, k, x) ==> holds(*m, k, x)
 //@   invariant#keys forall k int :: trig(k) ==> (has(*m, k) <==> hasIn(pairs, rangeidx, k))
 //@   invariant#uniq forall j int, t int :: 0 <= j && j < len(pairs) && 0 <= t && t < len(pairs) && pairs[j].distance != 0 && pairs[t].distance != 0 && pairs[j].key == pairs[t].key ==> j == t
 //@   uses view: hdr oldkept uniq others only stored
+//@   uses weiv: hdr oldkept uniq others only stored
 //@   uses keys: hdr oldkept uniq
-//@   uses count: hdr oldkept
+//@   uses count: hdr oldkept COUNT count
 //@   uses uniq: hdr oldkept
 //@
 //@ func (*intMap).Set
